@@ -21,7 +21,7 @@ CHECKS = {
          "DESIGN.md §5 C09"),
  "C10": ("exploration",
          "runtime monitor: physical link resolution and reference ignore verdicts over every package directory of the finished bundle; independent expectation of which fetched trees must fail; snapshot diff around the target directory; exhaustive offender shapes x positions and ordered pairs",
-         "36 shapes (clean and offending links, links led outside by another link, special files, offenders hidden or created by ignore rules, a rule file without final newline) are planted at each of 3 positions of a dependency graph, and all ordered pairs in two packages. The harness materialises the fetched tree itself, removes reference-excluded paths and resolves the remaining links physically to decide whether the build must fail; successful bundles are walked with the physical resolver and the reference matcher; nothing outside the target directory may change.",
+         "39 shapes (clean and offending links, links led outside by another link, special files, offenders hidden or created by ignore rules, a rule file without final newline) are planted at each of 3 positions of a dependency graph, and all ordered pairs in two packages. The harness materialises the fetched tree itself, removes reference-excluded paths and resolves the remaining links physically to decide whether the build must fail; successful bundles are walked with the physical resolver and the reference matcher; nothing outside the target directory may change.",
          "Links to in-package directories are outside the universe.",
          "DESIGN.md §5 C10"),
  "C18": ("exploration",
